@@ -1948,3 +1948,728 @@ func checkLastCheckpoint(c *Ctx, rule string) {
 	c.funcs[fi.Name] = true
 	c.Check(rule, "migrate.FilesFromLastCheckpoint|starts at the last checkpoint", fi.Decl.Pos(), last && first == "", "FilesFromLastCheckpoint does not select the last checkpoint (last-element selection found: %v; first-match selection: %q): with two checkpoints a fresh database replays the first checkpoint and the files after it and then the second checkpoint, which contains them again", last, first)
 }
+
+// enclosingFacts lists the atomic boolean facts known at n from the enclosing
+// if statements, tagless switch cases (the case's own condition, and the
+// negation of every earlier case) and short-circuit operators to its left.
+func enclosingFacts(pm map[ast.Node]ast.Node, n ast.Node) []fact {
+	var out []fact
+	child := n
+	for p := pm[n]; p != nil; child, p = p, pm[p] {
+		switch x := p.(type) {
+		case *ast.BinaryExpr:
+			if x.Y.Pos() <= child.Pos() && child.End() <= x.Y.End() {
+				switch x.Op {
+				case token.LAND:
+					out = append(out, impliedFacts(x.X, true)...)
+				case token.LOR:
+					out = append(out, impliedFacts(x.X, false)...)
+				}
+			}
+		case *ast.IfStmt:
+			switch {
+			case x.Body.Pos() <= child.Pos() && child.End() <= x.Body.End():
+				out = append(out, impliedFacts(x.Cond, true)...)
+			case x.Else != nil && x.Else.Pos() <= child.Pos() && child.End() <= x.Else.End():
+				out = append(out, impliedFacts(x.Cond, false)...)
+			}
+		case *ast.CaseClause:
+			sw, ok := pm[pm[x]].(*ast.SwitchStmt)
+			if !ok || sw.Tag != nil {
+				continue
+			}
+			inBody := true
+			for _, e := range x.List {
+				if e.Pos() <= child.Pos() && child.End() <= e.End() {
+					inBody = false
+				}
+			}
+			for _, cl := range sw.Body.List {
+				cc := cl.(*ast.CaseClause)
+				if cc == x {
+					break
+				}
+				for _, e := range cc.List {
+					out = append(out, impliedFacts(e, false)...)
+				}
+			}
+			if inBody && len(x.List) == 1 {
+				out = append(out, impliedFacts(x.List[0], true)...)
+			}
+		case *ast.FuncLit, *ast.FuncDecl:
+			return out
+		}
+	}
+	return out
+}
+
+// R12g: the optional statement of an error log entry is dereferenced only when present.
+const ruleTextOptionalStmt = "optional field discipline: sql/migrate logs errors that are not tied to a statement (the history-changed refusal, scan and checksum errors) as LogError values without Stmt, so in the log consumers (cmd/atlas/internal/cmdlog) every use of <LogError>.Stmt other than a nil comparison — passing it on, selecting a field — happens where `<that>.Stmt != nil` is known from an enclosing if / switch case; an unguarded use turns the clean refusal of a changed history into a nil-pointer panic"
+
+func checkOptionalStmt(c *Ctx, rule string) {
+	// producers: at least one LogError literal without Stmt
+	producers := 0
+	c.AllFuncs(false, func(fi *FuncInfo) {
+		if fi.Pkg.PkgPath != pMigrate {
+			return
+		}
+		info := fi.Info()
+		ast.Inspect(fi.Decl.Body, func(m ast.Node) bool {
+			cl, ok := m.(*ast.CompositeLit)
+			if !ok || !typeIs(info.TypeOf(cl), pMigrate, "LogError") {
+				return true
+			}
+			has := false
+			for _, el := range cl.Elts {
+				if kv, ok := el.(*ast.KeyValueExpr); ok {
+					if id, ok := kv.Key.(*ast.Ident); ok && id.Name == "Stmt" {
+						has = true
+					}
+				}
+			}
+			if !has {
+				producers++
+			}
+			return true
+		})
+	})
+	if producers == 0 {
+		c.Note("%s: every LogError literal of sql/migrate carries a Stmt; the field is not optional on this tree (vacuous)", rule)
+		return
+	}
+	n := 0
+	pp := modRoot + "/cmd/atlas/internal/cmdlog"
+	c.AllFuncs(false, func(fi *FuncInfo) {
+		if fi.Pkg.PkgPath != pp {
+			return
+		}
+		info := fi.Info()
+		pm := parentMap(fi.Decl)
+		k := 0
+		ast.Inspect(fi.Decl.Body, func(m ast.Node) bool {
+			se, ok := m.(*ast.SelectorExpr)
+			if !ok || se.Sel.Name != "Stmt" || !typeIs(derefType(info.TypeOf(se.X)), pMigrate, "LogError") {
+				return true
+			}
+			// a nil comparison is the guard itself
+			if be, ok := pm[se].(*ast.BinaryExpr); ok && (be.Op == token.EQL || be.Op == token.NEQ) && (isNilIdent(info, be.X) || isNilIdent(info, be.Y)) {
+				return true
+			}
+			k++
+			n++
+			c.funcs[fi.Name] = true
+			txt := types.ExprString(se)
+			guarded := false
+			for _, f := range enclosingFacts(pm, se) {
+				be, ok := ast.Unparen(f.expr).(*ast.BinaryExpr)
+				if !ok {
+					continue
+				}
+				var other ast.Expr
+				switch {
+				case isNilIdent(info, be.Y):
+					other = be.X
+				case isNilIdent(info, be.X):
+					other = be.Y
+				default:
+					continue
+				}
+				if types.ExprString(ast.Unparen(other)) != txt {
+					continue
+				}
+				if (be.Op == token.NEQ) == f.val {
+					guarded = true
+				}
+			}
+			c.Check(rule, fmt.Sprintf("%s|use %d of %s guarded by a nil test", fi.Name, k, txt), se.Pos(), guarded, "%s uses %s without knowing that it is not nil: the executor logs the refusal of a changed history (and other pre-execution errors) as a LogError without a statement, so this use panics instead of reporting the error", fi.Name, txt)
+			return true
+		})
+	})
+	if n == 0 {
+		c.Unresolved(rule, "uses of LogError.Stmt in cmdlog")
+	}
+}
+
+// R13g: foreign-key enforcement is switched back on whatever the outcome of the commit / rollback.
+const ruleTextFKReenabled = "SQLite transaction epilogue: in the closures returned by sqlite.CommitFunc and sqlite.RollbackFunc every return is, or is preceded on every path by, a call of enableFK; enforcement was switched off before BEGIN, and a successful commit that leaves it off lets the following files (and a following `txmode none` file) run without foreign-key checks, so a violation that must fail and roll back the file is committed silently"
+
+func checkFKReenabled(c *Ctx, rule string) {
+	n := 0
+	for _, name := range []string{"CommitFunc", "RollbackFunc"} {
+		fi := c.Func(rule, pSqlite, "", name)
+		if fi == nil {
+			continue
+		}
+		info := fi.Info()
+		ast.Inspect(fi.Decl.Body, func(m ast.Node) bool {
+			lit, ok := m.(*ast.FuncLit)
+			if !ok {
+				return true
+			}
+			n++
+			c.funcs[fi.Name] = true
+			f := newFlow(info, lit.Body)
+			isEnable := f.callNode(c.viaHelpers(func(fn *types.Func, _ *ast.CallExpr) bool { return fn.Name() == "enableFK" }, 1))
+			w, ok2 := f.mustPrecede(isEnable, isReturn)
+			c.Check(rule, "sqlite."+name+"|every exit re-enables foreign keys", nodePos(w, lit.Pos()), ok2, "the closure returned by sqlite.%s can return at %s without calling enableFK: foreign-key enforcement stays off for the rest of the connection, so later files of the same run are not checked", name, c.nodeAt(w))
+			return false
+		})
+	}
+	if n < 2 {
+		c.Unresolved(rule, "closures returned by sqlite CommitFunc / RollbackFunc (fewer than 2)")
+	}
+}
+
+// R13h: two foreign-key violations are the same only if all their fields agree.
+const ruleTextViolationIdentity = "identity of a foreign-key violation: wherever sql/sqlite decides whether two `violation` values are the same — a field-wise comparison of two values, or a key built from one value for a set/map — every field of the struct (table, row, referenced table, FK index) takes part; a coarser identity hides a new violation of the same row through another foreign key, and the file that introduced it is committed instead of rolled back"
+
+func checkViolationIdentity(c *Ctx, rule string) {
+	p := c.Pkg(pSqlite)
+	tn, _ := p.Types.Scope().Lookup("violation").(*types.TypeName)
+	if tn == nil {
+		c.Unresolved(rule, "type sqlite.violation")
+		return
+	}
+	st, ok := tn.Type().Underlying().(*types.Struct)
+	if !ok {
+		c.Unresolved(rule, "sqlite.violation is not a struct")
+		return
+	}
+	var fields []string
+	for i := 0; i < st.NumFields(); i++ {
+		fields = append(fields, st.Field(i).Name())
+	}
+	n := 0
+	c.AllFuncs(false, func(fi *FuncInfo) {
+		if fi.Pkg != p {
+			return
+		}
+		info := fi.Info()
+		isV := func(e ast.Expr) bool { return types.Identical(derefType(info.TypeOf(e)), tn.Type()) }
+		// (a) field-wise comparison a.f == b.f
+		cmp := map[string]bool{}
+		ast.Inspect(fi.Decl.Body, func(m ast.Node) bool {
+			be, ok := m.(*ast.BinaryExpr)
+			if !ok || (be.Op != token.EQL && be.Op != token.NEQ) {
+				return true
+			}
+			x, ok1 := ast.Unparen(be.X).(*ast.SelectorExpr)
+			y, ok2 := ast.Unparen(be.Y).(*ast.SelectorExpr)
+			if ok1 && ok2 && isV(x.X) && isV(y.X) && x.Sel.Name == y.Sel.Name && types.ExprString(x.X) != types.ExprString(y.X) {
+				cmp[x.Sel.Name] = true
+			}
+			return true
+		})
+		// (b) a key function: one violation parameter, string (or comparable) result
+		key := map[string]bool{}
+		isKeyFn := false
+		if sig := fi.Obj.Type().(*types.Signature); sig.Params().Len() == 1 && types.Identical(derefType(sig.Params().At(0).Type()), tn.Type()) && sig.Results().Len() == 1 {
+			if b, ok := sig.Results().At(0).Type().Underlying().(*types.Basic); ok && b.Info()&types.IsString != 0 {
+				isKeyFn = true
+				ast.Inspect(fi.Decl.Body, func(m ast.Node) bool {
+					if se, ok := m.(*ast.SelectorExpr); ok && isV(se.X) {
+						key[se.Sel.Name] = true
+					}
+					return true
+				})
+			}
+		}
+		for what, used := range map[string]map[string]bool{"compares": cmp, "builds a key from": key} {
+			if len(used) == 0 && !(what == "builds a key from" && isKeyFn) {
+				continue
+			}
+			if what == "builds a key from" && !isKeyFn {
+				continue
+			}
+			n++
+			c.funcs[fi.Name] = true
+			var missing []string
+			for _, f := range fields {
+				if !used[f] {
+					missing = append(missing, f)
+				}
+			}
+			c.Check(rule, fi.Name+"|"+what+" every field of violation", fi.Decl.Pos(), len(missing) == 0, "%s %s two foreign-key violations without the field(s) %v: violations that differ only there are taken for the same one, so a new violation introduced by a migration file is not seen and the file is committed", fi.Name, what, missing)
+		}
+	})
+	if n == 0 {
+		c.Unresolved(rule, "identity decision over sqlite.violation values")
+	}
+}
+
+// R11k: no decision of `migrate set` uses a copy taken from the revision list before the list was re-read.
+const ruleTextNoStaleRevisions = "freshness of values derived from the revision list: in the cmdapi commands that read the revisions more than once (migrate set deletes revisions and reads them again), a local variable computed from the list (revs[i].Version, len(revs), …) is not used after the list variable was assigned again unless it was recomputed; the decisions that follow (which files to mark applied) must agree with what Executor.Pending will read from the table afterwards"
+
+func checkNoStaleRevisions(c *Ctx, rule string) {
+	pp := modRoot + "/cmd/atlas/internal/cmdapi"
+	n := 0
+	c.AllFuncs(false, func(fi *FuncInfo) {
+		if fi.Pkg.PkgPath != pp {
+			return
+		}
+		info := fi.Info()
+		// slice-of-revision locals assigned at least twice
+		assigns := map[types.Object][]ast.Node{}
+		ast.Inspect(fi.Decl.Body, func(m ast.Node) bool {
+			if _, ok := m.(*ast.FuncLit); ok {
+				return false
+			}
+			as, ok := m.(*ast.AssignStmt)
+			if !ok {
+				return true
+			}
+			for _, l := range as.Lhs {
+				id, ok := l.(*ast.Ident)
+				if !ok {
+					continue
+				}
+				if sl, ok := info.TypeOf(id).(*types.Slice); ok && typeIs(derefType(sl.Elem()), pMigrate, "Revision") {
+					assigns[info.ObjectOf(id)] = append(assigns[info.ObjectOf(id)], as)
+				}
+			}
+			return true
+		})
+		for S, as := range assigns {
+			if len(as) < 2 {
+				continue
+			}
+			n++
+			c.funcs[fi.Name] = true
+			f := newFlow(info, fi.Decl.Body)
+			mentions := func(nd ast.Node, o types.Object, skipLHS bool) bool {
+				hit := false
+				ast.Inspect(nd, func(k ast.Node) bool {
+					if _, ok := k.(*ast.FuncLit); ok {
+						return false
+					}
+					if a, ok := k.(*ast.AssignStmt); ok && skipLHS {
+						for _, r := range a.Rhs {
+							ast.Inspect(r, func(q ast.Node) bool {
+								if id, ok := q.(*ast.Ident); ok && info.ObjectOf(id) == o {
+									hit = true
+								}
+								return !hit
+							})
+						}
+						// index/selector expressions on the left still read their operands
+						for _, l := range a.Lhs {
+							if _, isID := l.(*ast.Ident); !isID {
+								ast.Inspect(l, func(q ast.Node) bool {
+									if id, ok := q.(*ast.Ident); ok && info.ObjectOf(id) == o {
+										hit = true
+									}
+									return !hit
+								})
+							}
+						}
+						return false
+					}
+					if id, ok := k.(*ast.Ident); ok && info.ObjectOf(id) == o {
+						hit = true
+					}
+					return !hit
+				})
+				return hit
+			}
+			// derived locals: v := <expr mentioning S> (v is not S itself)
+			type def struct {
+				v    types.Object
+				node ast.Node
+			}
+			var defs []def
+			ast.Inspect(fi.Decl.Body, func(m ast.Node) bool {
+				if _, ok := m.(*ast.FuncLit); ok {
+					return false
+				}
+				a, ok := m.(*ast.AssignStmt)
+				if !ok || len(a.Lhs) != len(a.Rhs) {
+					return true
+				}
+				for i, l := range a.Lhs {
+					id, ok := l.(*ast.Ident)
+					if !ok || info.ObjectOf(id) == S || info.ObjectOf(id) == nil {
+						continue
+					}
+					if mentions(a.Rhs[i], S, false) {
+						defs = append(defs, def{info.ObjectOf(id), a})
+					}
+				}
+				return true
+			})
+			bad := ""
+			var badPos token.Pos = fi.Decl.Pos()
+			for _, d := range defs {
+				isDefV := func(nd ast.Node) bool {
+					a, ok := nd.(*ast.AssignStmt)
+					if !ok {
+						return false
+					}
+					for _, l := range a.Lhs {
+						if id, ok := l.(*ast.Ident); ok && info.ObjectOf(id) == d.v {
+							return true
+						}
+					}
+					return false
+				}
+				isReS := func(nd ast.Node) bool {
+					if nd == d.node {
+						return false
+					}
+					for _, a := range as {
+						if a == nd {
+							return true
+						}
+					}
+					return false
+				}
+				isUse := func(nd ast.Node) bool { return mentions(nd, d.v, true) }
+				for _, dp := range f.find(func(nd ast.Node) bool { return nd == d.node }) {
+					// reassignments of S reachable after the definition, before v is recomputed
+					for _, qp := range f.find(isReS) {
+						if _, ok := f.reach([]point{after(dp)}, isDefV, func(nd ast.Node) bool { return nd == qp.b.Nodes[qp.i] }, false); !ok {
+							continue
+						}
+						if u, ok := f.reach([]point{after(qp)}, isDefV, isUse, false); ok && bad == "" {
+							bad = fmt.Sprintf("%s (computed at line %d, list re-read at line %d, used at line %d)", d.v.Name(), posLine(c.Fset, d.node.Pos()), posLine(c.Fset, qp.b.Nodes[qp.i].Pos()), posLine(c.Fset, u.Pos()))
+							badPos = u.Pos()
+						}
+					}
+				}
+			}
+			c.Check(rule, fi.Name+"|values derived from "+S.Name()+" are recomputed after it is re-read", badPos, bad == "", "%s keeps using %s: the value was taken from the revision list before the list was read again (after revisions were deleted), so the files it marks as applied do not match what Executor.Pending computes from the table", fi.Name, bad)
+		}
+	})
+	if n == 0 {
+		c.Unresolved(rule, "cmdapi functions that read the revision list more than once")
+	}
+}
+
+// R14k: the deferred closure calls restore on every path.
+func checkRestoreUnconditional(c *Ctx, fi *FuncInfo, deferred *ast.DeferStmt, restoreObj types.Object) {
+	info := fi.Info()
+	var body *ast.BlockStmt
+	isRestore := func(inf *types.Info, obj types.Object) nodePred {
+		return func(n ast.Node) bool {
+			hit := false
+			ast.Inspect(n, func(m ast.Node) bool {
+				if call, ok := m.(*ast.CallExpr); ok {
+					if id, ok := call.Fun.(*ast.Ident); ok && inf.ObjectOf(id) == obj {
+						hit = true
+					}
+				}
+				return !hit
+			})
+			return hit
+		}
+	}
+	inf, obj := info, restoreObj
+	switch fun := deferred.Call.Fun.(type) {
+	case *ast.FuncLit:
+		body = fun.Body
+	case *ast.Ident:
+		if info.ObjectOf(fun) == restoreObj {
+			c.Check("R14k", fi.Name+"|restore called on every path of the deferred function", deferred.Pos(), true, "")
+			return
+		}
+	}
+	if body == nil {
+		// defer helper(…, restore, …)
+		hf := calleeOf(info, deferred.Call)
+		cf := c.FuncInfoOf(hf)
+		if cf == nil || cf.Decl.Body == nil {
+			c.Unresolved("R14k", fi.Name+": body of the deferred restore helper")
+			return
+		}
+		var ps []*ast.Ident
+		for _, fld := range cf.Decl.Type.Params.List {
+			ps = append(ps, fld.Names...)
+		}
+		for ai, a := range deferred.Call.Args {
+			if id, ok := ast.Unparen(a).(*ast.Ident); ok && info.ObjectOf(id) == restoreObj && ai < len(ps) {
+				body, inf, obj = cf.Decl.Body, cf.Info(), cf.Info().ObjectOf(ps[ai])
+			}
+		}
+		if body == nil {
+			c.Unresolved("R14k", fi.Name+": restore parameter of the deferred helper")
+			return
+		}
+	}
+	f := newFlow(inf, body)
+	w, skipped := f.reach([]point{f.entry()}, isRestore(inf, obj), isReturn, true)
+	c.Check("R14k", fi.Name+"|restore called on every path of the deferred function", nodePos(w, deferred.Pos()), !skipped, "the deferred function of %s can finish without calling the restore function (it is conditional, e.g. on the error being nil): when the work in between fails, whatever it created stays in the dev database", fi.Name)
+}
+
+// R14l: the dev database is accepted as clean only after its object count was tested.
+const ruleTextSnapshotAccepts = "Snapshot accepts a database only after counting what it holds: in the MySQL and PostgreSQL Snapshot implementations every successful return of a restore function built from a realm (RealmRestoreFunc) lies on paths that took an edge establishing len(<realm>.Schemas) == 0, == 1 or not > 0, and every one built from a schema (SchemaRestoreFunc) on paths that established len(<schema>.Tables) == 0 / not > 0; a path that accepts without such a test hands a non-empty database to the restore, which wipes it"
+
+func checkSnapshotAccepts(c *Ctx, rule string) {
+	n := 0
+	for _, pp := range []string{pMysql, pPostgres} {
+		fi := c.Func(rule, pp, "Driver", "Snapshot")
+		if fi == nil {
+			continue
+		}
+		info := fi.Info()
+		f := newFlow(info, fi.Decl.Body)
+		// kind of a restore expression: "Schemas" (realm) or "Tables" (schema)
+		kindOfCall := func(e ast.Expr) string {
+			call, ok := ast.Unparen(e).(*ast.CallExpr)
+			if !ok {
+				return ""
+			}
+			fn := calleeOf(info, call)
+			switch {
+			case fn == nil:
+				return ""
+			case fn.Name() == "RealmRestoreFunc":
+				return "Schemas"
+			case fn.Name() == "SchemaRestoreFunc":
+				return "Tables"
+			}
+			return ""
+		}
+		kindOf := func(e ast.Expr) string {
+			if k := kindOfCall(e); k != "" {
+				return k
+			}
+			if id, ok := ast.Unparen(e).(*ast.Ident); ok {
+				obj := info.ObjectOf(id)
+				k := ""
+				ast.Inspect(fi.Decl.Body, func(m ast.Node) bool {
+					if as, ok := m.(*ast.AssignStmt); ok && len(as.Lhs) == len(as.Rhs) {
+						for i, l := range as.Lhs {
+							if lid, ok := l.(*ast.Ident); ok && info.ObjectOf(lid) == obj {
+								k = kindOfCall(as.Rhs[i])
+							}
+						}
+					}
+					return true
+				})
+				return k
+			}
+			return ""
+		}
+		k := 0
+		for _, pt := range f.find(isReturn) {
+			ret := pt.b.Nodes[pt.i].(*ast.ReturnStmt)
+			if len(ret.Results) != 2 || !isNilIdent(info, ret.Results[1]) || isNilIdent(info, ret.Results[0]) {
+				continue
+			}
+			kind := kindOf(ret.Results[0])
+			if kind == "" {
+				c.Unresolved(rule, fi.Name+": kind of the restore function returned at "+c.pos(ret.Pos()))
+				continue
+			}
+			k++
+			n++
+			c.funcs[fi.Name] = true
+			clean := func(b *cfg.Block, si int) bool {
+				return edgeImplies(b, si, func(e ast.Expr, val bool) bool {
+					be, ok := ast.Unparen(e).(*ast.BinaryExpr)
+					if !ok {
+						return false
+					}
+					a := lenArg(info, be.X)
+					if a == nil {
+						return false
+					}
+					se, ok := ast.Unparen(a).(*ast.SelectorExpr)
+					if !ok || se.Sel.Name != kind {
+						return false
+					}
+					tv := info.Types[be.Y]
+					if tv.Value == nil {
+						return false
+					}
+					v := tv.Value.String()
+					switch be.Op {
+					case token.EQL:
+						return val && (v == "0" || (v == "1" && kind == "Schemas"))
+					case token.GTR:
+						return !val && v == "0"
+					case token.NEQ:
+						return !val && v == "0"
+					case token.LEQ:
+						return val && (v == "0" || (v == "1" && kind == "Schemas"))
+					}
+					return false
+				})
+			}
+			target := func(nd ast.Node) bool { return nd == ast.Node(ret) }
+			_, reachable := f.reachEx([]point{f.entry()}, nil, target, clean)
+			c.Check(rule, fmt.Sprintf("%s|success return %d (%s counted)", fi.Name, k, kind), ret.Pos(), !reachable, "%s returns a restore function (accepts the dev database as clean) on a path that never established the number of %s it holds: a database with other schemas / tables is taken for empty and wiped by the restore", fi.Name, strings.ToLower(kind))
+		}
+	}
+	if n < 3 {
+		c.Unresolved(rule, "successful returns of the MySQL / PostgreSQL Snapshot implementations (fewer than 3)")
+	}
+}
+
+// R15m: a value is not computed case-sensitively under a case-insensitive guard on the same text.
+const ruleTextFoldConsistency = "case-fold consistency: in the spec converters, when a switch case or if condition classifies a string E case-insensitively (strings.EqualFold(E, c) or strings.ToLower/ToUpper(E) == c), no comparison of the same E with a string constant inside the guarded branch is case-sensitive; the guard admits TRUE/True, so a value computed as E == \"true\" silently turns them into false"
+
+func checkFoldConsistency(c *Ctx, rule string) {
+	n := 0
+	for _, pp := range []string{pSpecutil, pMysql, pPostgres, pSqlite, pHCL} {
+		c.AllFuncs(false, func(fi *FuncInfo) {
+			if fi.Pkg.PkgPath != pp {
+				return
+			}
+			info := fi.Info()
+			// folded(E): cond contains EqualFold(E, const) / ToLower(E) == const; returns the texts of E
+			foldedIn := func(cond ast.Expr) map[string]bool {
+				out := map[string]bool{}
+				ast.Inspect(cond, func(m ast.Node) bool {
+					switch x := m.(type) {
+					case *ast.CallExpr:
+						if funcIs(calleeOf(info, x), "strings", "", "EqualFold") && len(x.Args) == 2 {
+							for i, a := range x.Args {
+								if _, isConst := stringConst(info, x.Args[1-i]); isConst {
+									out[types.ExprString(ast.Unparen(a))] = true
+								}
+							}
+						}
+					case *ast.BinaryExpr:
+						if x.Op != token.EQL && x.Op != token.NEQ {
+							return true
+						}
+						for i, side := range []ast.Expr{x.X, x.Y} {
+							other := []ast.Expr{x.Y, x.X}[i]
+							if _, isConst := stringConst(info, other); !isConst {
+								continue
+							}
+							if call, ok := ast.Unparen(side).(*ast.CallExpr); ok && len(call.Args) == 1 {
+								if fn := calleeOf(info, call); fn != nil && fn.Pkg() != nil && fn.Pkg().Path() == "strings" && (fn.Name() == "ToLower" || fn.Name() == "ToUpper") {
+									out[types.ExprString(ast.Unparen(call.Args[0]))] = true
+								}
+							}
+						}
+					}
+					return true
+				})
+				return out
+			}
+			check := func(cond ast.Expr, body []ast.Stmt, pos token.Pos) {
+				fs := foldedIn(cond)
+				if len(fs) == 0 || len(body) == 0 {
+					return
+				}
+				n++
+				c.funcs[fi.Name] = true
+				bad := ""
+				at := pos
+				for _, st := range body {
+					ast.Inspect(st, func(m ast.Node) bool {
+						be, ok := m.(*ast.BinaryExpr)
+						if !ok || (be.Op != token.EQL && be.Op != token.NEQ) || bad != "" {
+							return bad == ""
+						}
+						for i, side := range []ast.Expr{be.X, be.Y} {
+							other := []ast.Expr{be.Y, be.X}[i]
+							if s, isConst := stringConst(info, other); isConst && s != "" && fs[types.ExprString(ast.Unparen(side))] {
+								bad, at = types.ExprString(be), be.Pos()
+							}
+						}
+						return true
+					})
+				}
+				var names []string
+				for k := range fs {
+					names = append(names, k)
+				}
+				sort.Strings(names)
+				c.Check(rule, fi.Name+"|"+strings.Join(names, ",")+" compared case-insensitively throughout", at, bad == "", "%s classifies %s case-insensitively but then evaluates `%s` case-sensitively in the same branch: inputs that the guard admits in another letter case get the wrong value", fi.Name, strings.Join(names, ","), bad)
+			}
+			ast.Inspect(fi.Decl.Body, func(m ast.Node) bool {
+				switch x := m.(type) {
+				case *ast.IfStmt:
+					check(x.Cond, x.Body.List, x.Pos())
+				case *ast.CaseClause:
+					for _, e := range x.List {
+						check(e, x.Body, x.Pos())
+					}
+				}
+				return true
+			})
+		})
+	}
+	if n < 3 {
+		c.Unresolved(rule, "case-insensitive guards in the converters (fewer than 3)")
+	}
+}
+
+// R15n: MySQL prints a fractional-seconds precision only when it is positive.
+const ruleTextTimePrecision = "MySQL FormatType and the type registry agree on the absent parameter: datetime(0) ≡ datetime in MySQL and the HCL type spec drops a zero attribute, so mysql.FormatType writes the dereferenced TimeType.Precision only where it is known to be non-zero (an enclosing condition implies *p > 0 / *p != 0 / *p >= 1); printing `datetime(0)` for the original and `datetime` for the column re-read from HCL makes the differ report a change in both directions"
+
+func checkTimePrecision(c *Ctx, rule string) {
+	fi := c.Func(rule, pMysql, "", "FormatType")
+	if fi == nil {
+		return
+	}
+	info := fi.Info()
+	pm := parentMap(fi.Decl)
+	n := 0
+	ast.Inspect(fi.Decl.Body, func(m ast.Node) bool {
+		st, ok := m.(*ast.StarExpr)
+		if !ok {
+			return true
+		}
+		// *p where p is (an alias of) <TimeType>.Precision
+		isPrec := func(e ast.Expr) bool {
+			e = ast.Unparen(e)
+			if se, ok := e.(*ast.SelectorExpr); ok {
+				return se.Sel.Name == "Precision" && typeIs(derefType(info.TypeOf(se.X)), pSchema, "TimeType")
+			}
+			if id, ok := e.(*ast.Ident); ok {
+				obj := info.ObjectOf(id)
+				hit := false
+				ast.Inspect(fi.Decl.Body, func(k ast.Node) bool {
+					if as, ok := k.(*ast.AssignStmt); ok && len(as.Lhs) == len(as.Rhs) {
+						for i, l := range as.Lhs {
+							if lid, ok := l.(*ast.Ident); ok && info.ObjectOf(lid) == obj {
+								if se, ok := ast.Unparen(as.Rhs[i]).(*ast.SelectorExpr); ok && se.Sel.Name == "Precision" && typeIs(derefType(info.TypeOf(se.X)), pSchema, "TimeType") {
+									hit = true
+								}
+							}
+						}
+					}
+					return true
+				})
+				return hit
+			}
+			return false
+		}
+		if !isPrec(st.X) {
+			return true
+		}
+		// only uses that print the value (arguments of a call), not the comparisons that guard it
+		if _, inCmp := pm[st].(*ast.BinaryExpr); inCmp {
+			return true
+		}
+		n++
+		c.funcs[fi.Name] = true
+		txt := types.ExprString(st)
+		positive := false
+		for _, f := range enclosingFacts(pm, st) {
+			be, ok := ast.Unparen(f.expr).(*ast.BinaryExpr)
+			if !ok || types.ExprString(ast.Unparen(be.X)) != txt {
+				continue
+			}
+			tv := info.Types[be.Y]
+			if tv.Value == nil {
+				continue
+			}
+			v := tv.Value.String()
+			switch {
+			case be.Op == token.GTR && v == "0" && f.val, be.Op == token.NEQ && v == "0" && f.val, be.Op == token.GEQ && v == "1" && f.val,
+				be.Op == token.EQL && v == "0" && !f.val, be.Op == token.LEQ && v == "0" && !f.val, be.Op == token.LSS && v == "1" && !f.val:
+				positive = true
+			}
+		}
+		c.Check(rule, fmt.Sprintf("mysql.FormatType|precision print %d under a non-zero guard", n), st.Pos(), positive, "mysql.FormatType prints the TimeType precision %s without knowing that it is non-zero: a column declared datetime(0) is formatted `datetime(0)` while the same column re-read from its HCL (the zero attribute is dropped) is formatted `datetime`, so the differ reports a change in both directions", txt)
+		return true
+	})
+	if n == 0 {
+		c.Unresolved(rule, "print of TimeType.Precision in mysql.FormatType")
+	}
+}
